@@ -5,6 +5,8 @@ import JunoModel.C03.ProofsCasm
 import JunoModel.C03.ProofsPatch
 import JunoModel.C03.ProofsProgress
 import JunoModel.C03.ProofsLegacySys
+import JunoModel.C03.ProofsApi
+import JunoModel.C03.ProofsLegacySysX
 /-!
 C03 — property theorems (statements only; helper lemmas are in `Proofs*.lean`; statements about
 proposed patches that are not in the tree are in `ProofsPatch.lean` and are NOT obligations).
@@ -24,6 +26,13 @@ declared (`Diff.extraClasses`) — juno registers both the same way. `q.ordinary
 a contract that enters the state through `DeployedContracts`, or about a class; the system contracts
 0x1/0x2 (existence implementation defined) have their own theorems. The model's node has no pruner
 and no retention floor: all statements are about an UNPRUNED node (C16 owns pruning).
+
+Round 4. `BNode` (ModelApi.lean) is the node with its block store as buckets (chain height, headers, state
+updates, commitments, hash index) — what the driver executes; `Refines bn nd` says the buckets hold exactly
+the list `nd.blocks`. `bn.resolve be fl v`: which view a request gets through the process' retention floor
+`fl` (`none` = unseeded, the only case `Node.resolve` covers; `some f` = seeded at `f`, what node/node.go
+builds). `lastBlockWhere w ch n`: most recent block `≤ n` of the chain whose diff satisfies `w`; `v2Of`: the
+blake2s compiled class hash of a class's declaration; `histKey` / `bytesLt`: history keys and their byte order.
 
 Variants. `Cfg.current` / `legacyBackend` = the tree (`leafFix` b4efaf4, `histOrderFix` 904a370 and
 `dupDeclFix` 7460746 applied; `sysProbeFix`, `migValFix` proposed only). Theorems named `*_before_<commit>` are regression witnesses for
@@ -292,6 +301,33 @@ theorem legacy_system_existence_nodrain (ops : List Op) (nd : Node LState)
     simp only [Node.read, Node.resolve, hemp, Bool.false_eq_true, if_false]
     exact ⟨congrArg some (h.2 hnz).1, congrArg some (h.2 hnz).2⟩
 
+/-- LEGACY BACKEND, the other direction of `legacy_system_existence_nodrain`: when no stored block of
+the history (reverted ones included) leaves a system contract it lists without a non-zero slot
+(`NoEmptyStep`: no drain, no block writing only zeros to an empty system contract), the record of a
+system contract is a function of the chain — absent exactly when the contract is empty, its height the
+block that made the storage non-empty (invariant `LSysX`) — and on the view of every block at which
+0x1/0x2 has no non-zero slot its class hash, nonce and every slot are reported NOT FOUND. In
+particular a system contract whose creating block was reverted does not exist at any block of the
+chain that grows afterwards (a deployment height left behind by the revert would make these reads
+answer 0). -/
+theorem legacy_system_absent_noempty (ops : List Op) (nd : Node LState)
+    (hrun : run legacyBackend (Node.init legacyBackend) ops = some nd)
+    (hok : OpsOK (fun ch d => d.WF ∧ NoEmptyStep ch d) ops []) (hfr : OpsFresh ops [])
+    (a : Addr) (ha : isSystem a = true) (n : Nat) (hn : n < nd.blocks.length)
+    (he : ¬ NonEmpty (absAt nd.chain n) a) :
+    nd.read legacyBackend (.num n) (.classHash a) = some .notfound ∧
+    nd.read legacyBackend (.num n) (.nonce a) = some .notfound ∧
+    ∀ k, nd.read legacyBackend (.num n) (.storage a k) = some .notfound := by
+  have hs := run_invariant' legacyBackend LSysX (fun ch d => d.WF ∧ NoEmptyStep ch d)
+    (fun ch s s' d hI hP hu => lsysx_store ch s s' d hI hP hu)
+    (fun d rest s s' hI hr => lsysx_revert true d rest s s' hI hr)
+    ops (Node.init legacyBackend) nd lsysx_init hok hrun
+  have hidx := run_idxInv _ ops _ nd (idxInv_init _) hfr hrun
+  have hlen : n < nd.chain.length := by simpa [Node.chain] using hn
+  have h := lsysx_absent nd.chain nd.st hs a ha n hlen he
+  simp only [Node.read, resolve_num _ nd hidx n hn]
+  exact ⟨congrArg some h.1, congrArg some h.2.1, fun k => congrArg some (h.2.2 k)⟩
+
 /-- The two backends answer alike: the same history run on a legacy node and on a new node (any
 variant) gives the same answer for every retained block and every ordinary query. -/
 theorem backends_agree_reads (cfg : Cfg) (ops : List Op) (nl : Node LState) (nn : Node NState)
@@ -530,6 +566,231 @@ theorem legacy_revert_duplicate_declaration_before_7460746 :
     (run (legacyBackendOf false false) (Node.init (legacyBackendOf false false)) ops).isSome = false ∧
     (run legacyBackend (Node.init legacyBackend) ops).isSome = true := by decide
 
+/-! ### round 4: the block store as buckets, the retention floor, further accessors -/
+
+/-- THE BLOCK STORE (any backend). `BNode` keeps what `Store` / `RevertHead` read and write as
+buckets — chain height, header by number, state update by number, block commitments, hash index,
+transcribed from `verifyBlockSuccession`, `writeBlockContent`, `deleteBlockContent` — where `Node`
+keeps a list of blocks. The two run exactly the same histories (the same operation fails on both),
+and after every history the buckets hold exactly the list (`Refines`: height = length − 1 or absent,
+header / state update / commitments of `k` present iff `k` < length and equal to the list's, same
+hash index, same state, same CASM metadata). The driver executes `BNode`; every theorem about
+`Node` applies to it through this one and `bucket_node_reads`. -/
+theorem block_store_buckets_refine {σ : Type} (be : Backend σ) (ops : List Op) :
+    (∀ bn, brun be (BNode.init be) ops = some bn → ∃ nd, run be (Node.init be) ops = some nd ∧ Refines bn nd) ∧
+    (∀ nd, run be (Node.init be) ops = some nd → ∃ bn, brun be (BNode.init be) ops = some bn ∧ Refines bn nd) :=
+  brun_refines be ops _ _ (refines_init be)
+
+/-- … and through an unseeded retention floor (`blockchain.New` without option) every view of the
+bucket-level node answers what the list-level node answers. -/
+theorem bucket_node_reads {σ : Type} (be : Backend σ) (ops : List Op) (bn : BNode σ) (nd : Node σ)
+    (hb : brun be (BNode.init be) ops = some bn) (hr : run be (Node.init be) ops = some nd) (v : View) :
+    bn.resolve be none v = nd.resolve be v ∧
+    (∀ q, bn.read be none v q = nd.read be v q) ∧ (∀ c, bn.readCasm be none v c = nd.readCasm be v c) := by
+  obtain ⟨nd', hr', hR⟩ := brun_refines_init be ops bn hb
+  have : nd' = nd := Option.some.inj (hr'.symm.trans hr)
+  subst this
+  exact ⟨bresolve_unseeded be bn nd' hR v, bread_unseeded be bn nd' hR v, breadCasm_unseeded be bn nd' hR v⟩
+
+/-- WHICH VIEWS EXIST THROUGH A SEEDED RETENTION FLOOR (any backend; node/node.go always seeds the
+floor, so this is the path of a running node). With the floor at `f`, block number `k` has a view
+iff `f ≤ k < height` — the new backend decides it on the existence of the header (`k < f`, then the
+header read), the legacy backend on the chain height (`k < f`, `k > height`); head and by-hash
+views do not consult the floor. A process started on a database that was never pruned seeds the
+floor 0 (`OldestRetainedBlock` = first key of the commitments bucket, floor = max(oldest,1) − 1),
+and then every view is the view the unseeded path gives (`views_exist`). -/
+theorem views_through_seeded_floor {σ : Type} (be : Backend σ) (ops : List Op) (bn : BNode σ)
+    (hb : brun be (BNode.init be) ops = some bn) :
+    (∀ f k, bn.resolve be (some f) (.num k) =
+      if f ≤ k ∧ k < (chainOf ops).length then some (some k) else none) ∧
+    (∀ f, bn.resolve be (some f) .head = bn.resolve be none .head) ∧
+    (∀ f h, bn.resolve be (some f) (.hash h) = bn.resolve be none (.hash h)) ∧
+    bn.seedFloor = 0 ∧
+    (OpsFresh ops [] → ∀ v, bn.resolve be (some bn.seedFloor) v = bn.resolve be none v) := by
+  obtain ⟨nd, hr, hR⟩ := brun_refines_init be ops bn hb
+  have hlen := node_length_chainOf be ops nd hr
+  have hs := bresolve_seeded be bn nd hR
+  have h0 := seedFloor_unpruned bn nd hR
+  refine ⟨fun f k => by rw [(hs f).1 k, hlen], fun f => (hs f).2.1, fun f h => (hs f).2.2 h, h0, ?_⟩
+  intro hfr v
+  rw [h0]
+  cases v with
+  | head => exact (hs 0).2.1
+  | hash h => exact (hs 0).2.2 h
+  | num k =>
+    rw [(hs 0).1 k, bresolve_unseeded be bn nd hR]
+    have hidx := run_idxInv _ ops _ nd (idxInv_init _) hfr hr
+    by_cases hk : k < nd.blocks.length
+    · simp [hk, resolve_num be nd hidx k hk]
+    · simp [hk, Node.resolve]
+
+/-- READS THROUGH A SEEDED FLOOR, both backends: for every floor `f` and every block `f ≤ n < height`
+the view by number answers exactly what the state diffs up to and including block `n` give (no
+assumption on the block hashes: this path does not consult the hash index); below the floor there
+is no view. (The data below the floor is still there in this model: pruning itself is C16's.) -/
+theorem seeded_floor_read_correct (cfg : Cfg) (ops : List Op) (hwf : OpsWF ops) (f n : Nat) (q : Query) (hq : q.ordinary) :
+    (∀ bn, brun (newBackend cfg) (BNode.init (newBackend cfg)) ops = some bn →
+      bn.read (newBackend cfg) (some f) (.num n) q =
+        if f ≤ n ∧ n < (chainOf ops).length then some ((absAt (chainOf ops) n).read q) else none) ∧
+    (∀ bn, brun legacyBackend (BNode.init legacyBackend) ops = some bn →
+      bn.read legacyBackend (some f) (.num n) q =
+        if f ≤ n ∧ n < (chainOf ops).length then some ((absAt (chainOf ops) n).read q) else none) := by
+  constructor
+  · intro bn hb
+    obtain ⟨nd, hr, hR⟩ := brun_refines_init _ ops bn hb
+    have hv := (views_through_seeded_floor _ ops bn hb).1 f n
+    have hinv := run_invariant (newBackend cfg) (NInv cfg)
+      (fun ch s s' d hI hd hu => ninv_store cfg ch s s' d hI hd hu)
+      (fun d rest s s' hI hr => ninv_revert cfg d rest s s' hI hr)
+      ops (Node.init (newBackend cfg)) nd (ninv_init cfg) hwf hr
+    unfold BNode.read
+    rw [hv]
+    by_cases hc : f ≤ n ∧ n < (chainOf ops).length
+    · simp only [hc, and_self, if_true, hR.st]
+      rw [← node_chain_chainOf _ ops nd hr]
+      exact congrArg some (ninv_histRead cfg nd.chain nd.st hinv n q hq)
+    · simp [hc]
+  · intro bn hb
+    obtain ⟨nd, hr, hR⟩ := brun_refines_init _ ops bn hb
+    have hv := (views_through_seeded_floor _ ops bn hb).1 f n
+    have hinv := run_invariant legacyBackend LInv
+      (fun ch s s' d hI hd hu => linv_store ch s s' d hI hd hu)
+      (fun d rest s s' hI hr => linv_revert true d rest s s' hI hr)
+      ops (Node.init legacyBackend) nd linv_init hwf hr
+    unfold BNode.read
+    rw [hv]
+    by_cases hc : f ≤ n ∧ n < (chainOf ops).length
+    · simp only [hc, and_self, if_true, hR.st]
+      rw [← node_chain_chainOf _ ops nd hr]
+      exact congrArg some (linv_histRead nd.chain nd.st hinv n q hq)
+    · simp [hc]
+
+/-- THE FLOOR OF A PRUNED DATABASE (any backend): when the commitments of the blocks below `m` are
+gone (what the pruner leaves in the bucket `Seed` scans; `m` below the height), a process started on
+the database seeds the floor `m − 1`: with `views_through_seeded_floor`, the blocks `m − 1 …` are
+served, the blocks below are refused. -/
+theorem seed_floor_of_pruned_database {σ : Type} (be : Backend σ) (ops : List Op) (bn : BNode σ)
+    (hb : brun be (BNode.init be) ops = some bn) (m : Nat) (hm : m < (chainOf ops).length) :
+    (bn.dropCommitmentsBelow m).seedFloor = m - 1 ∧
+    (∀ fl v, (bn.dropCommitmentsBelow m).resolve be fl v = bn.resolve be fl v) := by
+  obtain ⟨nd, hr, hR⟩ := brun_refines_init be ops bn hb
+  refine ⟨seedFloor_pruned bn nd hR m (by rw [node_length_chainOf be ops nd hr]; exact hm), ?_⟩
+  intro fl v
+  cases v <;> rfl
+
+/-- `ContractStorageLastUpdatedBlock` (rpc v10 `getStorageAt` with `include_last_update_block`), on
+every view that exists (any floor): NEW backend — the most recent block, up to the view's block,
+whose state diff lists the slot (0 when none does); LEGACY backend — the most recent such block whose
+write was logged, i.e. that did not write zero to a slot holding zero (`logged`). Heights are below
+2^64 (`upTo = MaxUint64` on the head reader). -/
+theorem last_updated_block_correct (cfg : Cfg) (ops : List Op) (hwf : OpsWF ops)
+    (hlen : (chainOf ops).length ≤ 2 ^ 64) (fl : Option Nat) (v : View) (a : Addr) (k : Slot) :
+    (∀ bn w, brun (newBackend cfg) (BNode.init (newBackend cfg)) ops = some bn →
+      bn.resolve (newBackend cfg) fl v = some w →
+      bn.readLastUpdated NState.lastUpdated (newBackend cfg) fl v a k =
+        some (lastBlockWhere (fun d _ => (d.storageAt a k).isSome) (chainOf ops) (w.getD ((chainOf ops).length - 1)))) ∧
+    (∀ bn w, brun legacyBackend (BNode.init legacyBackend) ops = some bn →
+      bn.resolve legacyBackend fl v = some w →
+      bn.readLastUpdated LState.lastUpdated legacyBackend fl v a k =
+        some (lastBlockWhere (fun d prev => logged d prev (.storage a k)) (chainOf ops) (w.getD ((chainOf ops).length - 1)))) := by
+  have hmax : ∀ (w : Diff → AbsSt → Bool) (x : Option Nat),
+      lastBlockWhere w (chainOf ops) (x.getD maxU64) = lastBlockWhere w (chainOf ops) (x.getD ((chainOf ops).length - 1)) := by
+    intro w x
+    cases x with
+    | some n => rfl
+    | none =>
+      simp only [Option.getD_none]
+      apply lastBlockWhere_ge
+      · simp only [maxU64]; omega
+      · omega
+  constructor
+  · intro bn w hb hv
+    obtain ⟨nd, hr, hR⟩ := brun_refines_init _ ops bn hb
+    have hinv := run_invariant (newBackend cfg) (NInv cfg)
+      (fun ch s s' d hI hd hu => ninv_store cfg ch s s' d hI hd hu)
+      (fun d rest s s' hI hr => ninv_revert cfg d rest s s' hI hr)
+      ops (Node.init (newBackend cfg)) nd (ninv_init cfg) hwf hr
+    simp only [BNode.readLastUpdated, hv, Option.map_some, NState.lastUpdated, hR.st, hinv.hist,
+      node_chain_chainOf _ ops nd hr, histOf_lastUpdated]
+    exact congrArg some (hmax _ w)
+  · intro bn w hb hv
+    obtain ⟨nd, hr, hR⟩ := brun_refines_init _ ops bn hb
+    have hinv := run_invariant legacyBackend LInv
+      (fun ch s s' d hI hd hu => linv_store ch s s' d hI hd hu)
+      (fun d rest s s' hI hr => linv_revert true d rest s s' hI hr)
+      ops (Node.init legacyBackend) nd linv_init hwf hr
+    simp only [BNode.readLastUpdated, hv, Option.map_some, LState.lastUpdated, hR.st, hinv.logs,
+      node_chain_chainOf _ ops nd hr, logsOf_lastUpdated]
+    exact congrArg some (hmax _ w)
+
+/-- … so the two backends report the same last-update block for a slot unless some block of the
+chain wrote zero to it while it held zero (the new backend records every listed write, the legacy
+one only writes `trie.Put` reports as a change): -/
+theorem last_updated_block_backends_agree (ch : List Diff) (a : Addr) (k : Slot) (n : Nat)
+    (h : ∀ d rest, (d :: rest) <:+ ch → d.storageAt a k = some 0 → (absOf rest).stor a k ≠ 0) :
+    lastBlockWhere (fun d _ => (d.storageAt a k).isSome) ch n =
+      lastBlockWhere (fun d prev => logged d prev (.storage a k)) ch n := by
+  induction ch with
+  | nil => rfl
+  | cons d rest ih =>
+    have ih' := ih (fun d' r' hs => h d' r' (List.IsSuffix.trans hs (List.suffix_cons d rest)))
+    simp only [lastBlockWhere, ih']
+    have : (d.storageAt a k).isSome = logged d (absOf rest) (.storage a k) := by
+      simp only [logged]
+      cases hs : d.storageAt a k with
+      | none => rfl
+      | some x =>
+        simp only [Option.isSome_some, ocases_some]
+        by_cases hx : x = 0
+        · subst hx
+          have := h d rest (List.suffix_refl _) hs
+          simp [this]
+        · simp [hx]
+    rw [this]
+
+/-- the difference, on a concrete chain: block 0 deploys 0x104, block 1 lists 0x104[2] = 0 (a
+no-op). New backend: last update at block 1; legacy backend: never (0). Not a defect of C03's
+property text (the value read is 0 on both); recorded because `last_update_block` of rpc v10
+`getStorageAt` depends on the state backend for such a diff. -/
+theorem last_updated_block_differs_on_noop_zero_write :
+    let ops : List Op := [.store 1 { Diff.empty with deployed := [(0x104, 0xc000)] },
+                          .store 2 { Diff.empty with storage := [(0x104, [(2, 0)])] }]
+    ((brun (newBackend Cfg.current) (BNode.init (newBackend Cfg.current)) ops).bind
+        (fun bn => bn.readLastUpdated NState.lastUpdated (newBackend Cfg.current) (some 0) .head 0x104 2),
+     (brun legacyBackend (BNode.init legacyBackend) ops).bind
+        (fun bn => bn.readLastUpdated LState.lastUpdated legacyBackend (some 0) .head 0x104 2)) = (some 1, some 0) := by
+  decide
+
+/-- `CompiledClassHashV2` (what the VM asks for), any backend, on every view that exists — head or
+historical, the block of a historical reader is not consulted: the blake2s compiled class hash that
+came with the declaration of the class in the node's chain (`v2Of`: the declared hash when declared
+under protocol ≥ 0.14.1, else the hash juno precomputed), not-found for a class the chain does not
+declare. PARTIAL: same hypotheses as `casm_read_partial` (they carry the metadata invariant). -/
+theorem casm_v2_read_partial {σ : Type} (be : Backend σ) (hmf : be.migFix = false) (ops : List Op) (bn : BNode σ)
+    (hb : brun be (BNode.init be) ops = some bn)
+    (hok : OpsOK (fun ch d => CasmStep ch d ∧ MigOwnHash ch d) ops []) (fl : Option Nat) (v : View) (c : CHash)
+    (hv : (bn.resolve be fl v).isSome = true) :
+    bn.readCasmV2 be fl v c = some (match v2Of (chainOf ops) c with | some x => .ok x | none => .notfound) := by
+  obtain ⟨nd, hr, hR⟩ := brun_refines_init be ops bn hb
+  have hok' : OpsOK (fun ch d => CasmStep ch d ∧ MigVal ch d) ops [] :=
+    OpsOK.mono (fun ch d h => ⟨h.1, migVal_of_ownHash ch d h.2⟩) ops [] hok
+  have hinv := run_minv be hmf ops (Node.init be) nd minv_init hok' hr
+  obtain ⟨w, hw⟩ := Option.isSome_iff_exists.mp hv
+  simp only [BNode.readCasmV2, hw, hR.casm, hinv.recs c, ← node_chain_chainOf be ops nd hr, ← metaOf_v2]
+  cases metaOf nd.chain c <;> rfl
+
+/-- HISTORY KEYS (db/schema.go `*HistoryAtBlockKey` = prefix ++ big-endian uint64): for block numbers
+below 2^64, `bytes.Compare` orders the keys of one prefix as the block numbers, every key extends
+the prefix by 8 bytes, and starts with it — the entries a prefix iterator yields are the entries of
+that (contract[, slot]) in ascending block order (what `Hist` models). -/
+theorem history_key_order (pfx : List Nat) (n m : Nat) (hn : n < 2 ^ 64) (hm : m < 2 ^ 64) :
+    bytesLt (histKey pfx n) (histKey pfx m) = decide (n < m) ∧
+    (histKey pfx n).length = pfx.length + 8 ∧ (histKey pfx n).take pfx.length = pfx := by
+  refine ⟨?_, by simp [histKey, beBytes_length], by simp [histKey]⟩
+  unfold histKey
+  rw [bytesLt_append_left]
+  exact beBytes_lt 8 n m (by simpa using hn) (by simpa using hm)
+
 /-! ### non-vacuity: the hypotheses are satisfiable by histories that exercise the encodings -/
 
 /-- deploy + write, overwrite + nonce, replace class, revert, write again: runs, is well-formed,
@@ -675,5 +936,104 @@ example : (run (newBackend Cfg.current) (Node.init (newBackend Cfg.current)) sys
                 nd.read (newBackend Cfg.current) (.hash 3) (.storage 2 9),
                 nd.read (newBackend Cfg.current) (.hash 4) (.storage 2 9)]) =
     some [some (.ok 5), some (.ok 6), some (.ok 0), some .notfound, some (.ok 0), some (.ok 1), none] := by decide
+
+/-! ### non-vacuity of the round-4 statements -/
+
+/-- the example history on the bucket-level node: it runs on both backends; the process seeds floor 0;
+after the commitments below 2 are dropped a new process seeds floor 1 -/
+example : (brun (newBackend Cfg.current) (BNode.init (newBackend Cfg.current)) exampleHistory).map
+    (fun bn => [bn.seedFloor, (bn.dropCommitmentsBelow 2).seedFloor]) = some [0, 1] := by decide
+
+/-- with the floor at 1 block 0 has no view and block 1 has one; a number above the head has none -/
+example : (brun (newBackend Cfg.current) (BNode.init (newBackend Cfg.current)) exampleHistory).map
+    (fun bn =>
+      [bn.resolve (newBackend Cfg.current) (some 0) (.num 2), bn.resolve (newBackend Cfg.current) (some 1) (.num 0),
+       bn.resolve (newBackend Cfg.current) (some 1) (.num 1), bn.resolve (newBackend Cfg.current) (some 0) (.num 3),
+       bn.resolve (newBackend Cfg.current) none (.num 3), bn.resolve (newBackend Cfg.current) (some 2) .head]) =
+    some [some (some 2), none, some (some 1), none, none, some none] := by decide
+
+example : (brun (newBackend Cfg.current) (BNode.init (newBackend Cfg.current)) exampleHistory).map
+    (fun bn =>
+      [bn.read (newBackend Cfg.current) (some 1) (.num 1) (.storage 0x104 2),
+       bn.read (newBackend Cfg.current) (some 1) (.num 0) (.storage 0x104 2)]) =
+    some [some (.ok 6), none] := by decide
+
+/-- the slot 0x104[2] was last written at block 2 (head) / 1 (view of block 1) / 0 (view of block 0),
+0x105[9] never; no view, no answer -/
+example : (brun (newBackend Cfg.current) (BNode.init (newBackend Cfg.current)) exampleHistory).map
+    (fun bn =>
+      [bn.readLastUpdated NState.lastUpdated (newBackend Cfg.current) (some 0) .head 0x104 2,
+       bn.readLastUpdated NState.lastUpdated (newBackend Cfg.current) (some 0) (.num 1) 0x104 2,
+       bn.readLastUpdated NState.lastUpdated (newBackend Cfg.current) none (.num 0) 0x104 2,
+       bn.readLastUpdated NState.lastUpdated (newBackend Cfg.current) none .head 0x105 9,
+       bn.readLastUpdated NState.lastUpdated (newBackend Cfg.current) none (.num 7) 0x104 2]) =
+    some [some 2, some 1, some 0, some 0, none] := by decide
+
+example : (brun legacyBackend (BNode.init legacyBackend) exampleHistory).map
+    (fun bn =>
+      [bn.resolve legacyBackend (some 0) (.num 2), bn.resolve legacyBackend (some 1) (.num 0),
+       bn.resolve legacyBackend (some 0) (.num 3), bn.resolve legacyBackend none (.hash 4), bn.resolve legacyBackend none (.hash 3)]) =
+    some [some (some 2), none, none, some (some 2), none] := by decide
+
+/-- legacy backend: 0x104[3] = 0 written at block 1 to an unset slot leaves no log -/
+example : (brun legacyBackend (BNode.init legacyBackend) exampleHistory).map
+    (fun bn =>
+      [bn.readLastUpdated LState.lastUpdated legacyBackend (some 0) .head 0x104 2,
+       bn.readLastUpdated LState.lastUpdated legacyBackend (some 0) (.num 1) 0x104 2,
+       bn.readLastUpdated LState.lastUpdated legacyBackend (some 0) .head 0x104 3]) =
+    some [some 2, some 1, some 0] := by decide
+
+example : (chainOf exampleHistory).length ≤ 2 ^ 64 := by decide
+
+/-- `CompiledClassHashV2` on the CASM example: class 0x51 (declared under < 0.14.1, blake2s hash 0xb1)
+answers 0xb1 on every view, also on the view of block 0 after the migration; 0x52 was reverted -/
+example : (brun legacyBackend (BNode.init legacyBackend) casmHistory).map
+    (fun bn => [bn.readCasmV2 legacyBackend (some 0) (.num 0) 0x51, bn.readCasmV2 legacyBackend none .head 0x51,
+                bn.readCasmV2 legacyBackend none .head 0x52, bn.readCasmV2 legacyBackend none (.num 5) 0x51]) =
+    some [some (.ok 0xb1), some (.ok 0xb1), some .notfound, none] := by decide
+
+example : histKey [7, 1] 255 = [7, 1, 0, 0, 0, 0, 0, 0, 0, 255] ∧ histKey [7, 1] 256 = [7, 1, 0, 0, 0, 0, 0, 0, 1, 0] ∧
+    bytesLt (histKey [7] 255) (histKey [7] 256) = true ∧ bytesLt (histKey [7] (2 ^ 32)) (histKey [7] (2 ^ 32 - 1)) = false := by
+  decide
+
+/-- `legacy_system_absent_noempty`: the blocks that created 0x1 (block 1) and 0x2 (block 2) are
+reverted, the chain grows again to height 4 without touching them, then block 4 creates 0x1 anew —
+every block lists system contracts only with non-zero slots; 0x1 is absent at blocks 1..3 and exists
+from block 4, 0x2 is absent everywhere -/
+def sysRevertHistory : List Op :=
+  [.store 1 { Diff.empty with deployed := [(0x104, 0xc000)] },
+   .store 2 { Diff.empty with storage := [(1, [(2, 5)])] },
+   .store 3 { Diff.empty with storage := [(2, [(3, 1)])] },
+   .revert, .revert,
+   .store 4 { Diff.empty with storage := [(0x104, [(2, 2)])] },
+   .store 5 Diff.empty,
+   .store 6 { Diff.empty with nonces := [(0x104, 1)] },
+   .store 7 { Diff.empty with storage := [(1, [(4, 2)])] }]
+
+example : OpsOK (fun ch d => d.WF ∧ NoEmptyStep ch d) sysRevertHistory [] ∧ OpsFresh sysRevertHistory [] := by
+  refine ⟨?_, by simp [sysRevertHistory, OpsFresh]⟩
+  have noSysKeys : ∀ (ch : List Diff) (d : Diff), (∀ a ∈ d.storage.map (·.1), isSystem a = false) → NoEmptyStep ch d := by
+    intro ch d h a ha hk
+    rw [h a hk] at ha; cases ha
+  simp only [sysRevertHistory, OpsOK, List.tail_cons, and_true]
+  refine ⟨⟨Diff.wfb_sound _ (by decide), noSysKeys _ _ (by decide)⟩, ⟨Diff.wfb_sound _ (by decide), ?_⟩,
+    ⟨Diff.wfb_sound _ (by decide), ?_⟩, ⟨Diff.wfb_sound _ (by decide), noSysKeys _ _ (by decide)⟩,
+    ⟨Diff.wfb_sound _ (by decide), noSysKeys _ _ (by decide)⟩, ⟨Diff.wfb_sound _ (by decide), noSysKeys _ _ (by decide)⟩,
+    ⟨Diff.wfb_sound _ (by decide), ?_⟩⟩
+  · intro a _ hk
+    simp only [List.map_cons, List.map_nil, List.mem_singleton] at hk
+    subst hk; exact ⟨2, by decide⟩
+  · intro a _ hk
+    simp only [List.map_cons, List.map_nil, List.mem_singleton] at hk
+    subst hk; exact ⟨3, by decide⟩
+  · intro a _ hk
+    simp only [List.map_cons, List.map_nil, List.mem_singleton] at hk
+    subst hk; exact ⟨4, by decide⟩
+
+example : (run legacyBackend (Node.init legacyBackend) sysRevertHistory).map
+    (fun nd => [nd.read legacyBackend (.num 1) (.storage 1 2), nd.read legacyBackend (.num 3) (.classHash 1),
+                nd.read legacyBackend (.num 4) (.storage 1 2), nd.read legacyBackend (.num 4) (.storage 1 4),
+                nd.read legacyBackend (.num 4) (.nonce 2), nd.read legacyBackend (.num 2) (.storage 2 3)]) =
+    some [some .notfound, some .notfound, some (.ok 0), some (.ok 2), some .notfound, some .notfound] := by decide
 
 end Juno.C03.Props
